@@ -673,10 +673,173 @@ def _variants():
         V("p2w-key-value-swapped", replace_stmt(PW, "PinWords.perm_to_pinword_mapping", "res[val].add(key)", "res[key].add(val)"), "fire", "C14-T1"),
         V("strict-filter-negated", replace_expr(PW, "PinWords.perm_to_strict_pinword_mapping", "cls.is_strict_pinword(x)", "not cls.is_strict_pinword(x)"), "fire", "C14-T1"),
         V("letter-dicts-disagree", replace_expr(PW, "PinWords.m_to_sp", "{'1': 'RU', '2': 'LU', '3': 'LD', '4': 'RD'}", "{'1': 'RU', '2': 'LU', '3': 'RD', '4': 'LD'}"), "fire", "C14-T1"),
+        V("occurrences-overlapping-factors", replace_expr(PW, "PinWords.pinword_occurrences", "occ + len(u_word[j])", "occ + 1"), "fire", "C14-D1"),
+        V("occurrences-same-factor-again", replace_expr(PW, "PinWords.pinword_occurrences", "rec(word, u_word, occ + len(u_word[j]), j + 1, res)", "rec(word, u_word, occ + len(u_word[j]), j, res)"), "fire", "C14-D1"),
+        V("contains-negated", replace_expr(PW, "PinWords.pinword_contains", "next(cls.pinword_occurrences(word, u_word), False) is not False", "next(cls.pinword_occurrences(word, u_word), False) is False"), "fire", "C14-D1"),
+        V("contains-sp-uses-general", replace_expr(PW, "PinWords.pinword_contains_sp", "cls.pinword_occurrences_sp(word, u_word)", "cls.pinword_occurrences(word, u_word)"), "fire-or-undecided", "C14-D1"),
+        V("sp-listing-skips-last-index", replace_expr(PW, "PinWords.pinword_occurrences_sp", "range(start_index, len(word))", "range(start_index, len(word) - 1)"), "fire", "C14-D1"),
+        V("sp-listing-tail-shifted", replace_expr(PW, "PinWords.pinword_occurrences_sp", "word[idx + 1:idx + k]", "word[idx:idx + k]"), "fire", "C14-D1"),
+        V("sp-listing-quadrant-of-start", replace_expr(PW, "PinWords.pinword_occurrences_sp", "cls.quadrant(word, idx)", "cls.quadrant(word, start_index)"), "fire", "C14-D1"),
+        V("factor-includes-numerals", replace_expr(PW, "PinWords.factor_pinword", "word[cur] in DIRS", "word[cur] in QUADS"), "fire", "C14-D1"),
         # silent
+        V("contains-any-form", replace_expr(PW, "PinWords.pinword_contains", "next(cls.pinword_occurrences(word, u_word), False) is not False", "any((True for _ in cls.pinword_occurrences(word, u_word)))"), "silent"),
         V("reformat-util", reformat_only(PU), "silent"),
         V("reformat-pinwords", reformat_only(PW), "silent"),
         V("enumerator-not-in", replace_expr(PW, "PinWords.pinwords_of_length", "len(word) > 0 and word[-1] != 'U' and (word[-1] != 'D')", "len(word) > 0 and word[-1] not in 'UD'"), "silent"),
         V("handler-commuted-sum", replace_expr(PU, "PinWordUtil.char_u", "self.half * (last_x + PinWordUtil.max_x(pre_perm[:-1]))", "self.half * (PinWordUtil.max_x(pre_perm[:-1]) + last_x)"), "silent"),
         V("rename-pre-perm", rename_local(PU, "PinWordUtil.char_4", "pre_perm", "pins"), "silent"),
     ]
+
+
+# ----------------------------------------------------------------------------- D1: word-level containment, by construction part
+
+
+def rule_d1(ctx: Ctx) -> None:
+    """(d) is a semantic equivalence and stays undecided; decided here are only its by-construction parts: `contains` is
+    non-emptiness of the occurrence listing (both for strict factors and for whole words), the strict-factor listing is
+    Lemma 3.12's test at every start index, and the factor-by-factor search places each factor after the end of the
+    previous one, in order, reporting one start index per factor."""
+    repo = ctx.repo
+    for name, listing in (("pinword_contains", "pinword_occurrences"), ("pinword_contains_sp", "pinword_occurrences_sp")):
+        f = repo.need_method("PinWords", name)
+        ctx.run(check_skeleton, ctx, "C14-D1", f, [f"return next(cls.{listing}(a0, a1), False) is not False", f"return any(True for _ in cls.{listing}(a0, a1))"],
+                f"{name}(w, u) = NonEmpty({listing}(w, u))", required_calls=[listing])
+    sp = repo.need_method("PinWords", "pinword_occurrences_sp")
+    from .c11 import generator_or_skeleton
+
+    ctx.run(_sp_listing, ctx, sp)
+    occ = repo.need_method("PinWords", "pinword_occurrences")
+    ctx.run(_rec_shape, ctx, occ)
+    fp = repo.need_method("PinWords", "factor_pinword")
+    ctx.run(_factor_shape, ctx, fp)
+
+
+def _sp_listing(ctx: Ctx, f: FuncInfo) -> None:
+    from ..core import flow_env, subst_names
+    from ..skeleton import Env, T
+    from ..skelrules import spec_from_src
+
+    w, u, start = f.params[1], f.params[2], f.params[3]
+    loops = [st for st in f.body if isinstance(st, ast.For)]
+    if len(loops) != 1:
+        raise AnalysisError(f"{f.where}: scan loop not recognised")
+    lp = loops[0]
+    if unparse(lp.iter) != f"range({start}, len({w}))":
+        ctx.violation("C14-D1", f, lp, f"start indices are scanned over `{unparse(lp.iter)}`; every index from the requested start to the end of the word must be tried")
+        return
+    idx = unparse(lp.target)
+    if not (len(lp.body) == 1 and isinstance(lp.body[0], ast.If) and not lp.body[0].orelse and len(lp.body[0].body) == 1 and unparse(lp.body[0].body[0]) == f"yield {idx}"):
+        ctx.violation("C14-D1", f, lp, "the scan does not yield exactly the start indices that pass the test")
+        return
+    env = flow_env(f, lp)
+    test = subst_names(lp.body[0].test, env)
+    e = Env()
+    got = T(test, e)
+    want = [spec_from_src(f"return cls.quadrant({w}, {idx}) == cls.quadrant({u}, 0) and {w}[{idx} + 1:{idx} + len({u})] == {u}[1:]")]
+    want_self = [spec_from_src(f"return cls.quadrant({w}, {idx}) == cls.quadrant({u}, 0) and {w}[{idx} + 1:len({u}) + {idx}] == {u}[1:]")]
+    # spec_from_src maps its own parameter names; rebuild with the same free names
+    def t(src: str):
+        return T(ast.parse(src, mode="eval").body, Env())
+
+    wants = [t(f"cls.quadrant({w}, {idx}) == cls.quadrant({u}, 0) and {w}[{idx} + 1:{idx} + len({u})] == {u}[1:]")]
+    if got in wants:
+        ctx.ok("C14-D1", f.where, "strict factor u occurs at idx iff the pin at idx lies in u's quadrant and the following letters are u's direction letters (Lemma 3.12)", lp, f)
+    else:
+        from ..skeleton import show
+
+        ctx.violation("C14-D1", f, lp.body[0], f"occurrence test is  {show(got)[:200]} ; Lemma 3.12 requires  {show(wants[0])[:200]}")
+    _ = (want, want_self)
+
+
+def _rec_shape(ctx: Ctx, occ: FuncInfo) -> None:
+    recs = list(occ.nested.values())
+    if len(recs) != 1:
+        raise AnalysisError(f"{occ.where}: recursive helper not found")
+    rec = recs[0]
+    w, us, i, j, res = rec.params
+    # top-level call
+    rets = [st for st in occ.body if isinstance(st, ast.Return)]
+    if len(rets) == 1 and unparse(rets[0].value) == f"{rec.name}({occ.params[1]}, cls.factor_pinword({occ.params[2]}), 0, 0, [])":
+        ctx.ok("C14-D1", occ.where, "search starts with the first factor of factor_pinword(u) at index 0 and an empty match list", rets[0], occ)
+    else:
+        ctx.violation("C14-D1", occ, rets[0] if rets else occ.node, f"the factor search is not started as {rec.name}(w, factor_pinword(u), 0, 0, [])")
+    body = rec.body
+    if not (len(body) == 1 and isinstance(body[0], ast.If)):
+        raise AnalysisError(f"{rec.where}: case analysis not recognised")
+    c1 = body[0]
+    if unparse(c1.test) == f"{j} == len({us})" and [unparse(s) for s in c1.body] == [f"yield tuple({res})"]:
+        ctx.ok("C14-D1", rec.where, "all factors placed -> report the tuple of their start indices", c1, rec)
+    else:
+        ctx.violation("C14-D1", rec, c1, "a match is not reported exactly when every factor has been placed (j == len(factors) -> yield tuple(res))")
+        return
+    rest = c1.orelse
+    if len(rest) == 1 and isinstance(rest[0], ast.If) and unparse(rest[0].test) in (f"{i} >= len({w})", f"len({w}) <= {i}"):
+        loop_part = rest[0].orelse
+    else:
+        loop_part = rest
+    loops = [s for s in loop_part if isinstance(s, ast.For)]
+    if len(loops) != 1:
+        raise AnalysisError(f"{rec.where}: loop over the occurrences of the current factor not found")
+    lp = loops[0]
+    o = unparse(lp.target)
+    if unparse(lp.iter) != f"cls.pinword_occurrences_sp({w}, {us}[{j}], {i})":
+        ctx.violation("C14-D1", rec, lp, f"the current factor is searched by `{unparse(lp.iter)}`; expected pinword_occurrences_sp(w, factors[j], i) (from index i on)")
+        return
+    calls = [n for n in ast.walk(lp) if isinstance(n, ast.Call) and call_name(n) == (rec.name,)]
+    if len(calls) != 1:
+        raise AnalysisError(f"{rec.where}: recursive call not found")
+    args = [unparse(a) for a in calls[0].args]
+    if args == [w, us, f"{o} + len({us}[{j}])", f"{j} + 1", res]:
+        ctx.ok("C14-D1", rec.where, "the next factor is searched after the end of the current match (occ + len(factor)), factors in order", calls[0], rec)
+    else:
+        ctx.violation("C14-D1", rec, calls[0], f"the search continues with ({', '.join(args)}); the next factor must start at or after {o} + len({us}[{j}]) (no overlap with the current match) and be factor j + 1")
+        return
+    stm = [unparse(s) for s in lp.body if not isinstance(s, ast.For)]
+    if stm[:1] == [f"{res}.append({o})"] and stm[-1:] == [f"{res}.pop()"]:
+        ctx.ok("C14-D1", rec.where, "match list is extended before and restored after exploring a placement (backtracking)", lp, rec)
+    else:
+        ctx.violation("C14-D1", rec, lp, f"the match list is not pushed/popped around the recursive exploration ({stm})")
+
+
+def _factor_shape(ctx: Ctx, f: FuncInfo) -> None:
+    """factor_pinword: each factor starts at a letter and extends over the following direction letters."""
+    w = f.params[0]
+    loops = [st for st in f.body if isinstance(st, ast.While)]
+    if len(loops) != 1:
+        raise AnalysisError(f"{f.where}: outer loop not recognised")
+    lp = loops[0]
+    inits = {unparse(s.targets[0]): unparse(s.value) for s in f.body if isinstance(s, ast.Assign)}
+    pos = next((k for k, v in inits.items() if v == "0"), None)
+    lst = next((k for k, v in inits.items() if v == "[]"), None)
+    if pos is None or lst is None or unparse(lp.test) != f"{pos} < len({w})":
+        raise AnalysisError(f"{f.where}: loop header not recognised")
+    inner = [s for s in lp.body if isinstance(s, ast.While)]
+    if len(inner) != 1:
+        raise AnalysisError(f"{f.where}: inner loop not recognised")
+    binit = {unparse(s.targets[0]): unparse(s.value) for s in lp.body if isinstance(s, ast.Assign)}
+    cur = next((k for k, v in binit.items() if v == f"{pos} + 1"), None)
+    if cur is None:
+        ctx.violation("C14-D1", f, lp, "a factor does not start with exactly one leading letter (cur = position + 1)")
+        return
+    if unparse(inner[0].test) != f"{cur} < len({w}) and {w}[{cur}] in DIRS" or [unparse(s) for s in inner[0].body] != [f"{cur} += 1"]:
+        ctx.violation("C14-D1", f, inner[0], f"a factor is extended while `{unparse(inner[0].test)}`; it must extend over the following direction letters only")
+        return
+    tail = [unparse(s) for s in lp.body[lp.body.index(inner[0]) + 1:]]
+    if tail == [f"{lst}.append({w}[{pos}:{cur}])", f"{pos} = {cur}"] and unparse(f.body[-1]) == f"return {lst}":
+        ctx.ok("C14-D1", f.where, "factors = maximal blocks 'one letter followed by direction letters', in order, covering the word", lp, f)
+    else:
+        ctx.violation("C14-D1", f, lp, f"after a factor is delimited the function does `{'; '.join(tail)}`; expected append(word[pos:cur]); pos = cur")
+
+
+_OLD_RUN = run
+
+
+def run(ctx: Ctx) -> None:  # noqa: F811
+    _OLD_RUN(ctx)
+    ctx.run(rule_d1, ctx)
+
+
+FLOORS["C14-D1"] = 8
+EXPLANATION = EXPLANATION.replace("NOT decided: (d) that pattern containment is reflected by the factor-by-factor word search", "Of (d) only the by-construction parts are decided (D1: contains = NonEmpty(occurrences), "
+                                  "the strict-factor test of Lemma 3.12 at every start index, factors placed in order after the end of the previous match, factorisation into numeral-led blocks). "
+                                  "NOT decided: (d) that pattern containment is reflected by the factor-by-factor word search")
